@@ -75,6 +75,38 @@ def nonceClass (n : Nat) : String :=
   if n = 0 then "first" else if n % 2 ^ 64 = 2 ^ 64 - 1 then "wrap64" else if (n + 1) % 2 ^ 32 = 0 then "carry32"
   else if (n + 1) % 65536 = 0 then "carry16" else if (n + 1) % 256 = 0 then "carry8" else "n*"
 
+/-- route through the assembly: `q` = iterations of the 4-blocks-at-a-time loop, `b` = iterations of the one-block loop,
+`t` = partial last block (copied through the stack); 2 stands for "two or more" -/
+def pathClass (len : Nat) : String :=
+  if len = 0 then "none" else
+  s!"q{min (len / 256) 2}b{min (len % 256 / 64) 2}t{if len % 64 = 0 then 0 else 1}"
+
+/-- which bytes of the 64-bit request number are significant -/
+def magClass (n : Nat) : String :=
+  if n = 0 then "n=0" else
+  let k := Nat.log2 n / 8
+  if n + 2 ≥ 2 ^ 64 then "n≥2^64-2"
+  else if (List.range 8).all (fun i => n / 2 ^ (8 * i) % 256 != 0) then "allbytes≠0"
+  else s!"2^{8 * k}≤n<2^{8 * (k + 1)}"
+
+/-- shape of an 8-byte nonce / 32-byte key handed to the assembly directly -/
+def bytesClass (what : String) (unit : Nat) (bs : List Nat) : String :=
+  let nzs := (List.range bs.length).filter fun i => bs.getD i 0 != 0
+  match nzs with
+  | [] => s!"{what}=0"
+  | [i] => s!"{what}-onehot{i / unit}"
+  | _ =>
+    if nzs.length = bs.length then
+      match (List.range bs.length).filter (fun i => bs.getD i 0 != bs.getD (if i = 0 then 1 else 0) 0) with
+      | [] => s!"{what}-allequal"
+      | [i] => s!"{what}-onecold{i / unit}"
+      | _ => s!"{what}-allnz"
+    else s!"{what}*"
+
+def asmNonceClass (nonce : List Nat) : String :=
+  let c := bytesClass "nonce" 1 nonce
+  if c = "nonce*" then (if (nonce.drop 4).all (· = 0) then "nonce-hi32=0" else if (nonce.take 4).all (· = 0) then "nonce-lo32=0" else c) else c
+
 /-- model: run the state machine of Model/FastRandom over the recorded history, then serve this request -/
 def frbModel (f : Frb) : List Int :=
   let os := osOf f.key
@@ -101,7 +133,8 @@ def handlersP : List (String × PHandler) := [
   ("frb", {
     run := fun a => (parseFrb a).map fun f =>
       { model := frbModel f, specOk := true,
-        cls := s!"{if f.wb = 1 then "wb" else "bb"}:{lenClass f.len}:{sideClass f.side}" ++
+        cls := (if f.wb = 1 then s!"wb:{pathClass f.len}:{magClass ((f.start + f.idx) % 2 ^ 64)}"
+                else s!"bb:{lenClass f.len}:{sideClass f.side}") ++
           (if nonceClass (f.start + f.idx) = "n*" then "" else ":" ++ nonceClass (f.start + f.idx)) },
     spec := fun a impl => (parseFrb a).map fun f => impl == frbSpec f }),
   -- direct call of the assembly: len align side key[32] nonce[8] => redzone c_agrees data
@@ -111,7 +144,12 @@ def handlersP : List (String × PHandler) := [
         let kn ← bytes? rest 40
         if len < 0 || len > 2 ^ 26 then none
         pure { model := [1, 1] ++ encodeData (Salsa20.stream (kn.take 32) (kn.drop 32) len.toNat), specOk := true,
-               cls := s!"{lenClass len.toNat}:{sideClass side.toNat}" }
+               cls :=
+                 let kc := bytesClass "key" 4 (kn.take 32)
+                 let nc := asmNonceClass (kn.drop 32)
+                 if kc.startsWith "key-onehot" then s!"{pathClass len.toNat}:{kc}"
+                 else if nc = "nonce-allnz" || nc = "nonce*" then s!"{lenClass len.toNat}:{sideClass side.toNat}:{pathClass len.toNat}"
+                 else s!"{pathClass len.toNat}:{nc}" }
       | _ => none,
     spec := fun a impl => match a with
       | len :: _ :: _ :: rest => do
